@@ -13,15 +13,39 @@ def sh(cmd, cwd=None, timeout=3600):
     return p.returncode, p.stdout
 
 
+def demo_config(demo):
+    """limits / permissions from an optional demo.toml (same format as test_scripts/NNN.toml)"""
+    import tomllib
+    p = os.path.join(os.path.dirname(demo), 'demo.toml')
+    limits, perms = {}, {}
+    if os.path.exists(p):
+        cfg = tomllib.load(open(p, 'rb'))
+        l = cfg.get('limits', {})
+        for k, mine in (('size_limit', 'size'), ('depth_limit', 'depth'), ('recursion_limit', 'recursion'), ('ud_call_limit', 'calls'), ('maximum_search', 'search')):
+            if k in l:
+                limits[mine] = l[k]
+        if 'time_limit' in l:
+            limits['time0'] = True
+        for x in l.get('forbidden_permissions', []):
+            perms[x] = False
+        for x in l.get('allowed_permissions', []):
+            perms[x] = True
+    return limits, perms
+
+
 def run_demo(demo):
     from mc import core
     src = open(demo).read()
-    job = {'id': 0, 'limits': {}, 'steps': [{'feed': src}, {'op': 'inst'}, {'op': 'call', 'name': 'main'}]}
+    limits, perms = demo_config(demo)
+    job = {'id': 0, 'limits': limits, 'perms': perms, 'steps': [{'feed': src}, {'op': 'inst'}, {'op': 'call', 'name': 'main'}, {'op': 'stats'}]}
     r = core.Runner(); rep = r.run(job, timeout=60); r.stop()
     if 'fatal' in rep:
         return 'fatal:' + rep['fatal']
     vs = [x.get('v') for x in rep['replies'] if 'v' in x]
-    return json.dumps(vs[-1])[:300] if 'ok' in vs[0] and 'ok' in vs[1] else json.dumps(vs[:2])[:400]
+    outs = ''.join(x.get('c', {}).get('out', '') for x in rep['replies'])
+    if 'ok' in vs[0] and 'ok' in vs[1]:
+        return json.dumps(vs[2])[:300] + (' out=%r' % outs[:200] if outs else '')
+    return json.dumps(vs[:2])[:400]
 
 
 def main():
@@ -64,6 +88,9 @@ def main():
     os.makedirs(dst, exist_ok=True)
     shutil.copy(patch, os.path.join(dst, 'patch.diff'))
     shutil.copy(demo, os.path.join(dst, 'demo.xr'))
+    if os.path.exists(os.path.join(seed, 'demo.toml')):
+        shutil.copy(os.path.join(seed, 'demo.toml'), os.path.join(dst, 'demo.toml'))
+    meta['demo_outcome_differs'] = meta['demo_without_change'] != meta['demo_with_change']
     readme = os.path.join(seed, 'README.md')
     if os.path.exists(readme):
         shutil.copy(readme, os.path.join(dst, 'README.md'))
